@@ -143,10 +143,8 @@ protected:
       int z1 = (int)MC().MakeFixedVar(1.0);
       // Add cone
       std::vector<double> c = {{1.0, 0.5}};
-      c.insert(c.end(), qp.coefs().begin(), qp.coefs().end());
-      if (objsns > 0)       // negate coefs if maximizing
-        for (size_t i=2; i<c.size(); ++i)
-          c[i] = -c[i];
+      for (auto coef: qp.coefs())   // the cone is 2*c0*z*c1*z1 >= sum (c[i]*x[i])^2
+        c.push_back(std::sqrt(std::fabs(coef)));
       std::vector<int> x = {{z, z1}};
       x.insert(x.end(), qp.vars1().begin(), qp.vars1().end());
       MC().AddConstraint(
